@@ -24,6 +24,7 @@ from __future__ import annotations
 
 import copy
 import hashlib
+import json
 from typing import Any
 
 from simkit.seq import SeqEnv
@@ -292,6 +293,10 @@ def run(seed: int, params: dict, replay: dict | None = None) -> dict:
                         ({k_: v1_, k2_: v2_}, {k_: v1_ + '";"' + k2_ + '"="' + v2_}),
                         ({k_: v1_, k2_: v2_}, {k_ + "=" + v1_ + ";" + k2_: v2_}),
                         ({k_: v1_, k2_: v2_}, {k2_: v1_, k_: v2_}),
+                        # collisions of the three encodings that quote only keys, only values, or nothing
+                        ({k_: v1_, k2_: v2_}, {k_: v1_ + ";" + json.dumps(k2_, ensure_ascii=False) + "=" + v2_}),
+                        ({k_: v1_, k2_: v2_}, {k_ + "=" + json.dumps(v1_, ensure_ascii=False) + ";" + k2_: v2_}),
+                        ({k_: v1_, k2_: v2_}, {k_: v1_ + ";" + k2_ + "=" + v2_}),
                     ]
                     a_, b_ = rng.choice(cand)
                     bump("probe.identity_pairs")
